@@ -40,4 +40,5 @@ def jobs(tier):
     out += matrix_jobs('C08', 'm1', tier)
     out += matrix_jobs('C08', 'm2', tier)
     out += matrix_jobs('C08', 'm3', tier)
+    out += matrix_jobs('C08', 'm4', tier)
     return flat(out)
